@@ -372,6 +372,8 @@ def run(run):
     rep.finish(rep.batch(section_kinematics(rep), timeout_s=timeout), PROP)
     rep.finish(rep.batch(section_stationary(rep), timeout_s=timeout), PROP)
     rep.finish(rep.batch(section_increments(rep, 5), timeout_s=timeout), PROP)
+    rep.selfcheck(PROP, [{'check': 'rate', 'point': {}, 'params': {'form': 'position'}}, {'check': 'rate', 'point': {}, 'params': {'form': 'position+velocity'}},
+                         {'check': 'stationary', 'point': {}, 'params': {'form': 'position'}}] + [{'check': 'increments', 'point': pt} for pt in rep.points((3 if run.tier == 'quick' else 20))])
     for name, sec, spec in CANARIES:
         try:
             obls = section_rate(rep, 'position', _mut(spec)) if sec == 'rate' else section_increments(rep, 5, _mut(spec))
